@@ -467,7 +467,10 @@ def main(argv=None):
     if harness:
         for i, msg in harness[:5]:
             print(f"HARNESS-ERROR run {i}: {msg}")
-        return 2
+        if not fails:
+            return 2
+        # some runs could not be judged, others produced violations: the violations are reported (they are
+        # replayed in a fresh process before being believed); the unjudged runs are listed above
 
     # classify failures
     known = load_known()
